@@ -139,6 +139,8 @@ static void Handle(const json& c, vh::Report& r) {
       if (g["ok"] != e["ok"]) r.Violation("C07", "status differs from from-scratch analysis", wit, { {"alias", e["alias"]}, {"got", g["ok"]}, {"expected", e["ok"]} });
       else if (e["ok"].get<bool>() && g["type"] != e["type"]) r.Violation("C07", "typification differs from from-scratch analysis", wit, { {"alias", e["alias"]}, {"got", g["type"]}, {"expected", e["type"]} });
       else if (e["ok"].get<bool>() && g["args"] != e["args"]) r.Violation("C07", "arguments differ from from-scratch analysis", wit, { {"alias", e["alias"]}, {"got", g["args"]}, {"expected", e["args"]} });
+      else if (e["ok"].get<bool>() && e.contains("vc")) { static const char* names[] = { "invalid", "value", "props" }; const std::string gv = names[g["valueClass"].get<int>() % 3];
+        if (gv != e["vc"].get<std::string>()) r.Violation("C07", "value class differs from from-scratch analysis", wit, { {"alias", e["alias"]}, {"got", gv}, {"expected", e["vc"]} }); }
       if (g["deps"] != ed) r.Violation("C07", "dependency edges differ", wit, { {"alias", e["alias"]}, {"got", g["deps"]}, {"expected", ed} });
     }
   }
